@@ -55,6 +55,7 @@ struct Client
 	bool eof_seen = false, read_error = false;
 	bool relaxed = false;           // connected when stop() was called: the statement is silent from then on
 	bool connected_at_stop = false;
+	size_t written_at_stop = 0;     // request bytes this client had written when stop() was called
 	size_t next_chunk = 0, chunk_done = 0, written = 0;
 	bool write_busy = false, delay_armed = false, delay_done = false, writer_off = false;
 	bool lingering = false, ec_armed = false;
@@ -341,6 +342,17 @@ struct Http
 				if (c.resp_seen > 0) ctx.hit("resp_to_later_request_on_same_connection");
 			}
 			++c.resp_seen;
+			{
+				// a request whose first byte was written after stop() has been answered: the server is demonstrably still
+				// serving this connection, so everything the statement says about a connection holds for it again
+				size_t const idx = c.resp_seen - 1;
+				size_t const start = idx == 0 ? 0 : (idx - 1 < c.cv.item_end.size() ? c.cv.item_end[idx - 1] : c.cv.stream.size());
+				if (c.connected_at_stop && c.relaxed && start >= c.written_at_stop && idx < c.cv.expects.size())
+				{
+					c.relaxed = false;
+					ctx.hit("served_request_sent_after_stop");
+				}
+			}
 		}
 		if (c.parser.failed)
 		{
@@ -445,7 +457,7 @@ struct Http
 		for (int k = 0; k < nclients; ++k)
 		{
 			Client& c = cl[k];
-			if (c.connected && !c.closed_by_us) { c.relaxed = true; c.connected_at_stop = true; }
+			if (c.connected && !c.closed_by_us) { c.relaxed = true; c.connected_at_stop = true; c.written_at_stop = c.written; }
 			if (c.connect_issued && !c.connect_done) ctx.hit("stop_with_connect_pending");
 		}
 		server->stop();
